@@ -103,6 +103,19 @@ def edit(repo, key, old, new, count=1):
     open(path, "w").write(s)
 
 
+def apply_patch(repo, name):
+    """apply tests/patches/<name>.diff to the scratch copy (files outside the copy are skipped)"""
+    path = os.path.join(ROOT, "rs2lean", "tests", "patches", name + ".diff")
+    text = open(path).read()
+    parts = re.split(r"(?m)^(?=diff --git )", text)
+    kept = [p for p in parts if p.startswith("diff --git") and os.path.exists(os.path.join(repo, p.split()[2][2:]))]
+    if not kept:
+        sys.exit(f"selftest: patch {name} touches none of the copied files")
+    r = subprocess.run(["patch", "-p1", "-s", "-d", repo], input="".join(kept), text=True, stdout=subprocess.PIPE, stderr=subprocess.STDOUT)
+    if r.returncode != 0:
+        sys.exit(f"selftest is stale: patch {name} does not apply:\n{r.stdout}")
+
+
 def theorems_failing(tie_rel, out):
     """names of the theorems of the tie file in which Lean reported an error"""
     lines = open(os.path.join(LEAN, tie_rel)).read().splitlines()
@@ -175,8 +188,16 @@ def main():
          ".pow(2)\n            .saturating_sub(CommandPacket::<ReadMem>::ACK_HEADER_LENGTH)", r"cmd\.rs:(\d+): .*pow"),
         ("refuse an untyped literal", "masked", "FnBitMask", "        let bits_len = reg_byte_len * 8;\n        match endianness {\n            Endianness::LE => lsb,",
          "        let unused = 7;\n        let bits_len = reg_byte_len * 8;\n        match endianness {\n            Endianness::LE => lsb,", r"masked_int_reg\.rs:(\d+): cannot determine the integer type"),
-        ("refuse a call outside the whitelist", "memory", "FnAccessRight", "        self.as_num() & 0b1 == 1",
-         "        self.as_str().len() == 2", r"memory\.rs:(\d+): .*not whitelisted"),
+        ("refuse a helper whose signature is outside the subset (named)", "memory", "FnAccessRight", "        self.as_num() & 0b1 == 1",
+         "        self.as_str().len() == 2", r"memory\.rs:(\d+): fn `AccessRight::as_str` \(inlined at"),
+        ("refuse a call of something that is not in the group's files", "memory", "FnAccessRight", "        self.as_num() & 0b1 == 1",
+         "        std::mem::size_of_val(&self) == 1", r"memory\.rs:(\d+): .*neither whitelisted nor a fn of the group"),
+        ("refuse a recursive helper (named)", "cmd", "FnCmd", "fn into_scd_len(len: usize) -> Result<u16> {",
+         "fn spin(n: usize) -> usize {\n    if n == 0 {\n        0\n    } else {\n        spin(n - 1)\n    }\n}\n\nfn into_scd_len(len: usize) -> Result<u16> {\n    let len = spin(len);",
+         r"cmd\.rs:(\d+): call of `spin` which is \(mutually\) recursive"),
+        ("refuse a helper whose body is outside the subset (at the construct)", "cmd", "FnCmd", "fn into_scd_len(len: usize) -> Result<u16> {",
+         "fn slow(n: usize) -> usize {\n    let mut k = 0;\n    while k < n {\n        k += 1;\n    }\n    k\n}\n\nfn into_scd_len(len: usize) -> Result<u16> {\n    let len = slow(len);",
+         r"cmd\.rs:(\d+): pattern `mut k`"),
     ]
     for name, key, group, old, new, pat in refusals:
         repo = fresh_copy()
@@ -192,8 +213,12 @@ def main():
         if m:
             ln = int(m.group(1))
             # the reported line must be where the inserted construct is
-            probe = new.strip().splitlines()[0].strip()
-            line_ok = any(probe[:12] in src_lines[i] for i in range(max(0, ln - 2), min(len(src_lines), ln + 1)))
+            # a reported line (the construct, or the call site named by "inlined at") must be at an
+            # inserted / changed line (a method chain is reported at the line where it starts)
+            new_lines = [l.strip() for l in new.strip().splitlines() if l.strip()]
+            cands = [ln] + [int(x) for x in re.findall(r"inlined at [^:]+:(\d+)", out)]
+            line_ok = any(src_lines[i].strip() in new_lines
+                          for c in cands for i in range(max(0, c - 1), min(len(src_lines), c + 2)))
         gone = had and not os.path.exists(stale)
         msg = (out.strip().splitlines() or ["<no output>"])[0][:160]
         expect(name, rc == 2 and bool(m) and line_ok and gone, f"rc={rc}, stale output removed={gone}; {msg}")
@@ -220,8 +245,21 @@ def main():
         ("M9 big-endian renumbering off by one (`- 1` dropped in lsb)", "masked", "FnBitMask",
          "            Endianness::BE => bits_len - lsb - 1,", "            Endianness::BE => bits_len - lsb,", ["gen_lsb_agrees"]),
     ]
-    for name, key, group, old, new, want in mutations:
+    # value-changing edits INSIDE inlined helpers (after a behaviour-preserving refactoring)
+    mutations += [
+        ("M10 C02-ref1 refactoring, then `- 1` dropped in the shared helper normalize_bit_pos", "masked", "FnBitMask",
+         "            Endianness::BE => bits_len - bit_pos - 1,", "            Endianness::BE => bits_len - bit_pos,", ["gen_lsb_agrees", "gen_msb_agrees"], "C02-ref1"),
+        ("M11 C02-ref1 refactoring, then bit_range returns (msb, lsb)", "masked", "FnBitMask",
+         "        (\n            self.lsb(reg_byte_len, endianness),\n            self.msb(reg_byte_len, endianness),\n        )\n    }",
+         "        (\n            self.msb(reg_byte_len, endianness),\n            self.lsb(reg_byte_len, endianness),\n        )\n    }", ["gen_mask_agrees", "gen_min_agrees"], "C02-ref1"),
+        ("M12 C09-ref1 refactoring, then the new private constant PREFIX_MAGIC_LENGTH 4 -> 8", "cmd", "FnCmd",
+         "const PREFIX_MAGIC_LENGTH: usize = 4;", "const PREFIX_MAGIC_LENGTH: usize = 8;", ["gen_ACK_HEADER_LENGTH_agrees", "maximum_read_length_bv"], "C09-ref1"),
+    ]
+    for m in mutations:
+        name, key, group, old, new, want = m[:6]
         repo = fresh_copy()
+        if len(m) > 6:
+            apply_patch(repo, m[6])
         edit(repo, key, old, new)
         rc, out, lrc, failing, dt = generate_and_prove(repo, group, lp)
         caught = rc == 0 and lrc not in (0, None) and all(w in failing for w in want)
@@ -252,10 +290,32 @@ def main():
             ("memory", "        self.as_num() >> 1_i32 == 1", "        self.as_num() & 0b10 == 0b10"),
         ]),
     ]
+    harmless += [
+        ("H6 refactoring C02-ref1 (helpers normalize_bit_pos / bit_range, tuple return)", "FnBitMask", [("patch", "C02-ref1", None)]),
+        ("H7 refactoring C09-ref1 (private constant PREFIX_MAGIC_LENGTH in ACK_HEADER_LENGTH)", "FnCmd", [("patch", "C09-ref1", None)]),
+        ("H8 refactoring C19-ref3 (named constants / const fn in MemoryProtection)", "FnAccessRight", [("patch", "C19-ref3", None)]),
+        ("H9 cmd.rs: helpers with early return, `?`, usize::from, method + free fn", "FnCmd", [
+            ("cmd", "    pub fn maximum_read_length(maximum_ack_len: usize) -> u16 {\n        // An acknowledge that can't even hold its header carries no data at all.\n        maximum_ack_len\n            .saturating_sub(CommandPacket::<ReadMem>::ACK_HEADER_LENGTH)\n            .try_into()\n            .unwrap_or(u16::MAX)\n    }",
+             "    pub fn maximum_read_length(maximum_ack_len: usize) -> u16 {\n        let room = Self::payload_room(maximum_ack_len);\n        let clamped = clamp_u16(room);\n        clamped\n    }\n\n    fn payload_room(ack_len: usize) -> usize {\n        if ack_len <= HEADER_ROOM {\n            return 0;\n        }\n        ack_len - HEADER_ROOM\n    }"),
+            ("cmd", "fn into_scd_len(len: usize) -> Result<u16> {\n    len.try_into()\n        .map_err(|_| Error::InvalidPacket(\"scd length must be less than u16::MAX\".into()))\n}",
+             "const HEADER_ROOM: usize = CommandPacket::<ReadMem>::ACK_HEADER_LENGTH;\n\nfn clamp_u16(len: usize) -> u16 {\n    if len > usize::from(u16::MAX) {\n        return u16::MAX;\n    }\n    len as u16\n}\n\nfn checked_u16(len: usize) -> Result<u16> {\n    if len > usize::from(u16::MAX) {\n        return Err(Error::InvalidPacket(\"scd length must be less than u16::MAX\".into()));\n    }\n    Ok(len as u16)\n}\n\nfn into_scd_len(len: usize) -> Result<u16> {\n    let v = checked_u16(len)?;\n    Ok(v)\n}"),
+        ]),
+        ("H10 memory.rs: AccessRight bit helper, named constants, keep_if helper, tuple helper", "FnAccessRight", [
+            ("memory", "        self.as_num() & 0b1 == 1", "        self.bit(Self::READ_BIT)"),
+            ("memory", "        self.as_num() >> 1_i32 == 1", "        self.bit(Self::WRITE_BIT)"),
+            ("memory", "    #[doc(hidden)]\n    #[must_use]\n    pub const fn as_num(self) -> u8 {",
+             "    const READ_BIT: u8 = 0;\n    const WRITE_BIT: u8 = Self::READ_BIT + 1;\n\n    const fn bit(self, n: u8) -> bool {\n        (self.as_num() >> n) & 1 == 1\n    }\n\n    fn keep_if(self, cond: bool) -> Self {\n        if !cond {\n            return Self::NA;\n        }\n        self\n    }\n\n    fn rw(self) -> (bool, bool) {\n        (self.is_readable(), self.is_writable())\n    }\n\n    #[doc(hidden)]\n    #[must_use]\n    pub const fn as_num(self) -> u8 {"),
+            ("memory", "            RO => {\n                if rhs.is_readable() {\n                    self\n                } else {\n                    NA\n                }\n            }\n            WO => {\n                if rhs.is_writable() {\n                    self\n                } else {\n                    NA\n                }\n            }",
+             "            RO => {\n                let (r, _) = rhs.rw();\n                self.keep_if(r)\n            }\n            WO => {\n                let (_, w) = rhs.rw();\n                self.keep_if(w)\n            }"),
+        ]),
+    ]
     for name, group, edits in harmless:
         repo = fresh_copy()
         for key, old, new in edits:
-            edit(repo, key, old, new)
+            if key == "patch":
+                apply_patch(repo, old)
+            else:
+                edit(repo, key, old, new)
         rc, out, lrc, failing, dt = generate_and_prove(repo, group, lp)
         expect(name, rc == 0 and lrc == 0 and not failing, f"rs2lean rc={rc} {out.strip().splitlines()[0][:120] if rc else ''}, tie rc={lrc}, failing={failing}, {dt:.1f}s")
 
